@@ -65,6 +65,7 @@ struct Args {
         short,
         long,
         value_name = "CODE",
+        allow_hyphen_values = true,
         action = clap::ArgAction::Append
     )]
     expression: Option<Vec<String>>,
